@@ -52,6 +52,7 @@ func ChopFile(ctx context.Context, name string, chunks []IndexChunk, ws WriteSto
 	var interrupted bool
 loop:
 	for _, c := range chunks {
+		verifYield("chop.feeder")
 		select {
 		case <-ctx.Done():
 			interrupted = true
